@@ -23,6 +23,7 @@ class DummyQueue:
     delayed: dict[datetime, list[Message]] = field(default_factory=dict)
     dead: list[Message] = field(default_factory=list)
     processing: set[Message] = field(default_factory=set)
+    holders: dict[Message, object] = field(default_factory=dict)  # which consumer took a message
 
 
 def wait_until(params: ParametersT | None = None) -> datetime | None:
